@@ -52,14 +52,14 @@ theorem shows_reads_back (enc : G → String) (dec : String → G) (cw : String 
     `emu_shows_every_frame`, the conclusion being two equations — the emulator's grid read back is the
     application's screen, the emulator's cursor read back is the requested cursor. -/
 theorem emu_reads_back_every_frame (enc : G → String) (dec : String → G) (cw : String → Nat) (hsp : cw "20" = 1)
-    (hd : dec "20" = [32]) (hemp : dec "" = []) (rows cols : Nat) (e0 : Emu)
+    (hd : dec "20" = [32]) (hemp : dec "" = []) (hlp : Lemmas.C12Vocab.LpOk dec) (rows cols : Nat) (e0 : Emu)
     (h0 : DSim dec (startDisplay cols rows) e0 rows cols)
     (fi0 : FrameIn) (fis : List FrameIn) (hr0 : fi0.refresh = true)
     (hok : ∀ fi ∈ fi0 :: fis, C01Clip.FrameInOkC cw emuCaps rows cols fi ∧ EmuFrameOk dec cw fi)
     (k : Nat) (fk : FrameIn) (hk : (fi0 :: fis)[k]? = some fk) (he : EncOk enc dec fk) :
     ∃ ek, runFramesC dec cw (startState cols rows) e0 ((fi0 :: fis).take (k + 1)) = .ok ek ∧
       readScreen enc ek.active = Expected.expectedC cw emuCaps fk.next ∧ readCursor ek = wantCursor fk := by
-  obtain ⟨ek, hr, hs, _⟩ := emu_shows_every_frame dec cw hsp hd hemp rows cols e0 h0 fi0 fis hr0 hok k fk hk
+  obtain ⟨ek, hr, hs, _⟩ := emu_shows_every_frame dec cw hsp hd hemp hlp rows cols e0 h0 fi0 fis hr0 hok k fk hk
   exact ⟨ek, hr, shows_reads_back enc dec cw fk ek hs he⟩
 
 /-! ### Non-vacuity: a byte decoding with an inverse on the strings of the example frames -/
